@@ -12,7 +12,11 @@ import (
 	"hzcheck/core"
 )
 
-func init() { register("C02", c02Retry) }
+func init() {
+	// the buffered connection is what re-delivers the same bytes after a short read: its
+	// accounting rules are necessary conditions of segmentation independence too
+	register("C02", c02Retry, c13Release, c13Len, c13Remainder, c13Accumulate, c13Window)
+}
 
 func isByteSliceT(t types.Type) bool { return isByteSlice(t) }
 
